@@ -1,5 +1,5 @@
 import Chartparse.Tie.LoopEvents
-import Chartparse.Model.Tempo
+import Chartparse.Model.Instrument
 /-! What the loop ties say about the hand model (`Model/Instrument.lean`, `Model/Tempo.lean`): the fold the dumped code was
     proved equal to *is* the model's function once values are read through their encodings — so the property theorems about that
     model function are statements about the loop as written in /repo today. -/
